@@ -108,6 +108,7 @@ func overlayFiles(lf loadFlags) (map[string][]byte, string, error) {
 		}
 		files, _ := filepath.Glob(filepath.Join(d, "*.go"))
 		sort.Strings(files)
+		inPlace := filepath.Clean(d) == filepath.Clean(pkgDir) // the harness package itself (external harness module)
 		for _, f := range files {
 			base := filepath.Base(f)
 			if strings.HasSuffix(base, "_native.go") || strings.HasSuffix(base, "_test.go") {
@@ -120,7 +121,9 @@ func overlayFiles(lf loadFlags) (map[string][]byte, string, error) {
 			if pkgName == "" {
 				pkgName = packageClause(b)
 			}
-			ov[filepath.Join(pkgDir, "zz_vf_"+base)] = b
+			if !inPlace {
+				ov[filepath.Join(pkgDir, "zz_vf_"+base)] = b
+			}
 		}
 	}
 	if pkgName != "" {
